@@ -228,6 +228,12 @@ func PerformInvite(ctx context.Context, input PerformInviteInput, fedClient Fede
 				return nil, spec.Forbidden(err.Error())
 			}
 
+			// The event is the remote server's answer: it need not be the invite that was sent.
+			if inviteEvent.StateKey() == nil {
+				logger.Error("fedClient.SendInviteV3 returned an event without a state key")
+				return nil, spec.Forbidden("the invite returned by the remote server is not a state event")
+			}
+
 			err = input.StoreSenderIDFromPublicID(ctx, spec.SenderID(*inviteEvent.StateKey()), input.Invitee.String(), input.RoomID)
 			if err != nil {
 				logger.WithError(err).Errorf("failed storing senderID for %s", input.Invitee.String())
